@@ -85,6 +85,23 @@ def fragment_header(state):
 
         state["_picture_initial_fragment_offset"] = fragment_offset
     else:
+        # Errata: not specified in standard...
+        #
+        # (14.2) A fragment containing slices is only allowed while a
+        # fragmented picture is in progress (i.e. after a fragment with
+        # fragment_slice_count==0 and before all of its slices have arrived).
+        # Otherwise every slice in it is one too many. (NB: Checked first since
+        # the fields used below are only defined once a fragmented picture
+        # has been started.)
+        if state["_fragment_slices_remaining"] == 0:
+            raise TooManySlicesInFragmentedPicture(
+                state.get("_picture_initial_fragment_offset", fragment_offset),
+                fragment_offset,
+                state.get("fragment_slices_received", 0),
+                state["_fragment_slices_remaining"],
+                state["fragment_slice_count"],
+            )
+
         # (14.2) Appart from when fragment_slice_count==0, the picture number
         # must not change
         if state["_last_picture_number"] != state["picture_number"]:
